@@ -341,7 +341,7 @@ pub fn run_fault_case(case: &FaultCase, dir: &Path) -> CaseResult {
                 cm
             );
             let aux = json!({"fault": spec, "class": class, "op": op, "point": p, "model": format!("{cm:?}"), "fault_hit_file_class": hit_class, "fault_hit_the_fsync_after_the_manifest_rename": after_manifest_rename});
-            let got = match open_and_scan(&cfg, &img.join("db"), &rt, false) {
+            let got = match open_and_scan(&cfg, &img.join("db"), &rt, None) {
                 Opened::Panicked(m) => {
                     failure = Some(fail("recovery-panic", format!("{what}: opening the image panicked: {m}"), aux));
                     break 'points;
